@@ -8,79 +8,50 @@ package isaacdatabase
 // ---- C24: pools are first-writer-wins; cleanup keeps recent entries ------------------
 //
 // exfound: outcome of the last PrefixStorage.Exists (1 found, 0 not found, 2 error)
-//@ ghost exfound int
-//@ package github.com/spikeekips/mitum/storage/leveldb
-//@ func (*PrefixStorage).Exists
-//@   trusted
-//@   modifies ghost:exfound
-//@   ensures r1 == nil ==> exfound == ite(r0, 1, 0)
-//@   ensures r1 != nil ==> exfound == 2
-//@ func (*PrefixStorage).Put
-//@   trusted
-//@   modifies *
-//@ package github.com/spikeekips/mitum/isaac/database
+// (exfound is declared with the storage contracts, storage/leveldb/verif_contracts.go)
 
 // the key of a ballot is a function of its stage point and the suffrage-confirm flag
 // (byte concatenation over fixed-size arrays: outside the verified subset)
 //@ func leveldbBallotKey
 //@   trusted
 //@   pure
+//@   ensures len(r0) < 1099511627776
 //@ func EncodeFrame
 //@   trusted
 //@   pure
 
 //@ func (*TempPool).SetBallot
 //@   prop C24
-//@   requires db != nil && bl != nil && db.baseLeveldb != nil
+//@   requires db != nil && bl != nil && db.baseLeveldb != nil && (db.baseLeveldb.pst != nil ==> db.baseLeveldb.pst.Storage != nil && len(db.baseLeveldb.pst.prefix) < 1099511627776)
 //@   callsite Put requires a0 == key && exfound == 0
 //@   ensures [stored-flag] r1 == nil && r0 ==> exfound == 0
 
 //@ func leveldbProposalKey
 //@   trusted
 //@   pure
+//@   ensures len(r0) < 1099511627776
 //@ func leveldbProposalPointKey
 //@   trusted
 //@   pure
-//@ package github.com/spikeekips/mitum/storage/leveldb
-//@ func (*PrefixStorage).Batch
-//@   trusted
-//@   modifies *
-//@ func (*PrefixStorage).NewBatch
-//@   trusted
-//@   ensures r0 != nil
-//@ func (*PrefixStorageBatch).Put
-//@   trusted
-//@ func (*PrefixStorageBatch).Delete
-//@   trusted
-//@ func (*PrefixStorageBatch).Reset
-//@   trusted
-//@ func (*PrefixStorageBatch).Len
-//@   trusted
-//@   pure
-//@ package github.com/spikeekips/mitum/isaac/database
+//@   ensures len(r0) < 1099511627776
 
 // a proposal is written (both records, one batch) only when no proposal with
 // the same fact is stored
 //@ func (*TempPool).SetProposal
 //@   prop C24
-//@   requires db != nil && pr != nil && db.baseLeveldb != nil && pr.Fact() != nil && pr.ProposalFact() != nil
+//@   requires db != nil && pr != nil && db.baseLeveldb != nil && pr.Fact() != nil && pr.ProposalFact() != nil && (db.baseLeveldb.pst != nil ==> db.baseLeveldb.pst.Storage != nil && len(db.baseLeveldb.pst.prefix) < 1099511627776)
 //@   callsite Put requires exfound == 0
 //@   callsite Batch requires exfound == 0
 //@   ensures [stored-flag] r1 == nil && r0 ==> exfound == 0
 
 // the lookup reads the record under the key SetBallot writes for that stage
 // point and flag
-//@ package github.com/spikeekips/mitum/storage/leveldb
-//@ func (*PrefixStorage).Get
-//@   trusted
-//@   pure
-//@ package github.com/spikeekips/mitum/isaac/database
 //@ func ReadDecodeFrame
 //@   trusted
 //@   modifies *
 //@ func (*TempPool).Ballot
 //@   prop C24
-//@   requires db != nil && db.baseLeveldb != nil
+//@   requires db != nil && db.baseLeveldb != nil && (db.baseLeveldb.pst != nil ==> db.baseLeveldb.pst.Storage != nil && len(db.baseLeveldb.pst.prefix) < 1099511627776)
 //@   callsite Get requires a0 == leveldbBallotKey(base.NewStagePoint(point, stage), isSuffrageConfirm)
 
 // ---- C20: reopening returns what was stored (last suffrage proof) ----------------------
@@ -94,14 +65,8 @@ package isaacdatabase
 //@ func DecodeFrame
 //@   trusted
 //@   modifies *v
-//@ package github.com/spikeekips/mitum/storage/leveldb
-//@ func (*PrefixStorage).Iter
-//@   trusted
-//@   loops callback(ik, ib) -> keep, ierr
-//@   until !keep || ierr != nil
-//@ package github.com/spikeekips/mitum/isaac/database
 //@ func (*LeveldbPermanent).loadLastSuffrageProof
 //@   prop C20
-//@   requires db != nil && db.basePermanent != nil && db.baseLeveldb != nil && db.proof != nil
+//@   requires db != nil && db.basePermanent != nil && db.baseLeveldb != nil && db.proof != nil && (db.baseLeveldb.pst != nil ==> db.baseLeveldb.pst.Storage != nil && len(db.baseLeveldb.pst.prefix) < 1099511627776)
 //@   callsite SetValue requires exists([]byte(x), unbox(a0[1], []byte) == snd(ReadOneHeaderFrame(x)) && unbox(a0[2], []byte) == third(ReadOneHeaderFrame(x)))
 //@   hof Iter#0 loop invariant proof != nil ==> exists([]byte(x), meta == snd(ReadOneHeaderFrame(x)) && body == third(ReadOneHeaderFrame(x)))
